@@ -117,6 +117,11 @@ impl Report {
             });
         }
     }
+    /// adds `n` further occurrences of a signature already reported through `violation` (hot loops count
+    /// locally and do not build a description for every occurrence)
+    pub fn add_violation_count(&mut self, sig: &str, n: u64) {
+        *self.violation_counts.entry(sig.to_string()).or_insert(0) += n;
+    }
     pub fn cap(&mut self, s: String) {
         if !self.caps.contains(&s) {
             self.caps.push(s);
